@@ -783,7 +783,7 @@ func c12Stripped(c *Ctx, ns *numberScanner, rule string) {
 	frs := callsTo(ns.Num, ns.Frag)
 	if len(frs) >= 3 {
 		expFrag := frs[len(frs)-1]
-		okMarker, found := true, false
+		okMarker, found, okLow := true, false, true
 		instrs(ns.Num, func(b *ssa.BasicBlock, i int, in ssa.Instruction) {
 			sl, isSl := in.(*ssa.Slice)
 			if !isSl || sl.High == nil || sl.Low == nil {
@@ -820,7 +820,27 @@ func c12Stripped(c *Ctx, ns *numberScanner, rule string) {
 			if adv {
 				okMarker = false
 			}
+			// ... and start where the mantissa ended: the low bound is a position read with nothing consumed since the
+			// last fragment scan (read after the `e` has been consumed, the marker itself is lost: 1_5e3 becomes 153)
+			if lo, isLo := sl.Low.(*ssa.UnOp); isLo && isScannerField(lo.X, "pos") {
+				isFrag := func(x ssa.Instruction) bool {
+					call, isC := x.(*ssa.Call)
+					return isC && calleeOf(call) == ns.Frag
+				}
+				instrs(ns.Num, func(b2 *ssa.BasicBlock, j int, q ssa.Instruction) {
+					if st, isSt := q.(*ssa.Store); isSt && isScannerField(st.Addr, "pos") {
+						if pathExists(ns.Num, q, func(x ssa.Instruction) bool { return x == ssa.Instruction(lo) }, isFrag, nil) {
+							okLow = false
+						}
+					}
+				})
+			} else {
+				okLow = false
+			}
 		})
+		if found {
+			c.R.Check(rule, "exponent-marker-start", c.P.InstrPos(expFrag), okLow, "the text of the exponent marker must start where the mantissa ended; here its start is read after the `e` has been consumed, so the marker is lost when the literal is re-assembled (1_5e3 becomes 153, 1_5e-3 is no number)")
+		}
 		c.R.Check(rule, "exponent-marker-text", c.P.InstrPos(expFrag), found && okMarker, "the text of the exponent marker (e/E and its sign) must run up to the position right before the exponent digits; here the position is sampled before the sign is consumed, so a `-` is lost when the literal is re-assembled (1_0e-2 becomes 10e2)")
 	}
 	c.R.Floor(rule, 3)
@@ -881,8 +901,9 @@ func runC15(c *Ctx) {
 
 // c15Speculation: look-ahead must put back every piece of scanner state that scanning changes;
 // the parser reads node positions (start of trivia) from that state right after a look-ahead.
-func c15Speculation(c *Ctx) {
-	const rule = "C15.speculation-restores-state"
+func c15Speculation(c *Ctx) { c15SpeculationAs(c, "C15.speculation-restores-state") }
+
+func c15SpeculationAs(c *Ctx, rule string) {
 	scan := c.scanFn()
 	rr := c.ReachFrom("scan", scan)
 	written := map[string]bool{}
@@ -892,7 +913,7 @@ func c15Speculation(c *Ctx) {
 		}
 		instrs(f, func(b *ssa.BasicBlock, i int, in ssa.Instruction) {
 			if st, ok := in.(*ssa.Store); ok {
-				if fa, ok := st.Addr.(*ssa.FieldAddr); ok && typeName(fa.X.Type()) == "Scanner" {
+				if fa, ok := st.Addr.(*ssa.FieldAddr); ok && isScannerField(fa, fieldName(fa)) {
 					written[fieldName(fa)] = true
 				}
 			}
@@ -933,6 +954,14 @@ func c15Speculation(c *Ctx) {
 			if u, ok := st.Val.(*ssa.UnOp); ok {
 				if fa2, ok := u.X.(*ssa.FieldAddr); ok && fieldName(fa2) == fieldName(fa) && instrDominates(u, cb) && instrDominates(cb, st) {
 					restored[fieldName(fa)] = true
+					// an embedded struct put back whole restores each of its fields (`s.scanState = saved`)
+					if stt, isS := deref(fa.X.Type()).Underlying().(*types.Struct); isS && fa.Field < stt.NumFields() && stt.Field(fa.Field).Embedded() {
+						if inner, isIS := stt.Field(fa.Field).Type().Underlying().(*types.Struct); isIS {
+							for k := 0; k < inner.NumFields(); k++ {
+								restored[inner.Field(k).Name()] = true
+							}
+						}
+					}
 				}
 			}
 		})
@@ -1179,7 +1208,12 @@ func c15FirstDiagnostic(c *Ctx) {
 	}
 	g := info.Closure
 	ok := false
-	instrs(g, func(b *ssa.BasicBlock, i int, in ssa.Instruction) {
+	// in the deferred function, or in the entry itself after the worker has returned (still under the recover)
+	scanBoth := func(visit func(b *ssa.BasicBlock, i int, in ssa.Instruction)) {
+		instrs(g, visit)
+		instrs(entry, visit)
+	}
+	scanBoth(func(b *ssa.BasicBlock, i int, in ssa.Instruction) {
 		call, isC := in.(*ssa.Call)
 		if !isC || calleeOf(call) != fd {
 			return
@@ -1342,6 +1376,32 @@ func c15Guards(c *Ctx) {
 					if jb, ok := j.(*ssa.BinOp); ok && jb.Op == token.ADD && (jb.X == ia.Index || sameExpr(jb.X, ia.Index)) {
 						if k, ok := constIntArg(jb.Y); ok {
 							off, isOff = k, true
+						}
+					}
+					if !isOff {
+						// both sides as base + constant: `pos+2 < len(text)` in front of text[pos+1]
+						lin := func(v ssa.Value) (ssa.Value, int64) {
+							k := int64(0)
+							for {
+								b2, ok := v.(*ssa.BinOp)
+								if !ok || b2.Op != token.ADD {
+									return v, k
+								}
+								if n, isK := constIntArg(b2.Y); isK {
+									v, k = b2.X, k+n
+									continue
+								}
+								if n, isK := constIntArg(b2.X); isK {
+									v, k = b2.Y, k+n
+									continue
+								}
+								return v, k
+							}
+						}
+						bj, kj := lin(j)
+						bi, ki := lin(ia.Index)
+						if (bj == bi || sameExpr(bj, bi)) && kj > ki {
+							off, isOff = kj-ki, true
 						}
 					}
 					if isOff && off > 0 {
